@@ -1,5 +1,5 @@
 (** C06 - One live execution per task; instance ids strictly increase. *)
-From HQ Require Import Base.Prelude Cluster.Types Cluster.Core Cluster.Reactor Cluster.Worker Cluster.Server Cluster.Sys Cluster.Monitors Cluster.ProofsJob Cluster.ProofsCore Cluster.ProofsMore.
+From HQ Require Import Base.Prelude Cluster.Types Cluster.Core Cluster.Reactor Cluster.Worker Cluster.Server Cluster.Sys Cluster.Monitors Cluster.ProofsJob Cluster.ProofsCore Cluster.ProofsMore Cluster.ProofsWorker.
 From Coq Require Import ZArith.
 Local Open Scope N_scope.
 
@@ -9,4 +9,22 @@ Theorem C06_retract_removes_from_backlog : forall order b ids out b' out' rq x,
   retract_from b order ids out = (b', out') -> In rq order -> In x (bl_get b' rq) -> tid_mem (wt_id x) ids = false.
 Proof. exact retract_removes. Qed.
 
+(** For EVERY sequence of messages, task ends and timers of a worker process (starting from any
+    reachable state): once the worker has given task [x] back - it processed a RetractTasks naming
+    [x], or a CancelTasks naming [x] while not running it - no later event starts [x], until a
+    ComputeTasks message names [x] again.  ("A worker that has confirmed giving a task back never
+    starts it afterwards.") *)
+Theorem C06_no_start_after_giveback : forall (p0 : wproc) es0 p e p1 l1 es p2 ls x,
+  WInv p0 -> wrun p0 es0 = Ok (p, l1) ->
+  wstep p e = Ok (p1, ls) -> gives_back p e x ->
+  (forall e', In e' es -> ~ sends e' x) ->
+  forall l2, wrun p1 es = Ok (p2, l2) -> ~ In x (launches_of (ls ++ l2)).
+Proof. exact no_start_after_giveback. Qed.
+
+(** ... and a freshly connected worker satisfies the premise [WInv]. *)
+Theorem C06_new_worker_invariant : forall w rs rqs, WInv (mkWP w [] [] [] [] rs rs [] [] [] rqs [] []).
+Proof. exact WInv_new. Qed.
+
+Print Assumptions C06_no_start_after_giveback.
+Print Assumptions C06_new_worker_invariant.
 Print Assumptions C06_retract_removes_from_backlog.
